@@ -74,7 +74,7 @@ theorem connect_cancelled_on_close (c : Conn) (r : Nat) (hr : c.connectReq = som
 `uv__tcp_connect` and no request is registered; ECONNREFUSED is parked and the call returns 0 -/
 theorem tcp_connect_sync_vs_delayed (c : Conn) (e : Int) (hc : c.closing = false) (hn : c.connectReq = none)
     (hd : c.delayedError = 0) :
-    (e ≠ 0 → e ≠ EINPROGRESS → e ≠ ECONNREFUSED → tcpConnect c 0 e = ({ c with fdOpen := true }, e)) ∧
+    (e ≠ 0 → e ≠ EINPROGRESS → e ≠ ECONNREFUSED → tcpConnect c 0 e = ({ c with fdOpen := true, connectCalls := c.connectCalls + 1 }, e)) ∧
     ((tcpConnect c 0 ECONNREFUSED).2 = 0 ∧ (tcpConnect c 0 ECONNREFUSED).1.delayedError = ECONNREFUSED ∧
      (tcpConnect c 0 ECONNREFUSED).1.fed = true ∧ (tcpConnect c 0 ECONNREFUSED).1.connectReq = some c.nextReq) := by
   refine ⟨fun h0 h1 h2 => ?_, ?_⟩
@@ -90,8 +90,8 @@ theorem pipe_connect_errors_via_callback (c : Conn) (r so : Int) (hc : c.closing
     (pipeConnect c 0 0 r).1.connectReq = some c.nextReq ∧
     (streamConnect (pipeConnect c 0 0 r).1 so).cbs = c.cbs ++ [(c.nextReq, r)] := by
   have hs : (pipeConnect c 0 0 r) =
-      ({ c with fdOpen := true, delayedError := r, connectReq := some c.nextReq, nextReq := c.nextReq + 1,
-                accepted := c.accepted ++ [c.nextReq], fed := true }, 0) := by
+      ({ c with fdOpen := true, connectCalls := c.connectCalls + 1, delayedError := r, connectReq := some c.nextReq,
+                nextReq := c.nextReq + 1, accepted := c.accepted ++ [c.nextReq], fed := true }, 0) := by
     simp [pipeConnect, hc, h0, h1]
   rw [hs]
   refine ⟨rfl, rfl, rfl, rfl, ?_⟩
@@ -100,5 +100,24 @@ theorem pipe_connect_errors_via_callback (c : Conn) (r so : Int) (hc : c.closing
   split <;> simp
 
 example : (streamConnect (pipeConnect {} 0 0 EAGAIN).1 0).cbs = [(0, EAGAIN)] := by decide
+
+/-- a client handle whose `uv_tcp_bind` hit EADDRINUSE (deferred, bind returned 0): `uv_tcp_connect` returns 0
+*without reaching connect(2)* — no connection can come into being — and the callback reports the bind
+error whatever the kernel would say; so "status ≠ 0" and "not established" coincide (tcp.c:291-292) -/
+theorem tcp_connect_after_deferred_bind_error (c : Conn) (r so : Int) (hc : c.closing = false)
+    (hn : c.connectReq = none) :
+    (tcpBind c EADDRINUSE).2 = 0 ∧
+    (tcpConnect (tcpBind c EADDRINUSE).1 0 r).2 = 0 ∧
+    (tcpConnect (tcpBind c EADDRINUSE).1 0 r).1.connectCalls = c.connectCalls ∧
+    (streamConnect (tcpConnect (tcpBind c EADDRINUSE).1 0 r).1 so).cbs = c.cbs ++ [(c.nextReq, EADDRINUSE)] := by
+  have hb : tcpBind c EADDRINUSE = ({ c with fdOpen := true, delayedError := EADDRINUSE }, 0) := by
+    simp [tcpBind, hc, EADDRINUSE]
+  rw [hb]
+  simp [tcpConnect, streamConnect, hc, hn, EADDRINUSE, EINPROGRESS, flushWrites]
+
+example : (crun {} [.tcpBind EADDRINUSE, .tcpConnect 0 0, .io 0]).cbs = [(0, EADDRINUSE)] ∧
+    (crun {} [.tcpBind EADDRINUSE, .tcpConnect 0 0, .io 0]).connectCalls = 0 ∧
+    (crun {} [.tcpBind 0, .tcpConnect 0 EINPROGRESS, .io 0]).cbs = [(0, 0)] ∧
+    (crun {} [.tcpBind 0, .tcpConnect 0 EINPROGRESS, .io 0]).connectCalls = 1 := by decide
 
 end UvModel.Accept
